@@ -42,6 +42,21 @@ func (m mm) pb() *testproto.TestAllTypes {
 	return &testproto.TestAllTypes{DefaultInt32: m.V, DefaultInt64: m.N, DefaultString: m.S, DefaultBool: m.B}
 }
 
+// ballast is a constant nested part that scenarios can give to every message they write (resCfg.Ballast): the model
+// does not know it, but a message that comes back with only a part of it has been damaged on the way (a nested read
+// mask that was applied to shared state, for instance).
+func ballast() *testproto.TestAllTypes_NestedMessage {
+	return &testproto.TestAllTypes_NestedMessage{A: 7, Corecursive: &testproto.TestAllTypes{DefaultInt32: 7, DefaultString: "ballast"}}
+}
+
+func (m mm) pbWith(withBallast bool) *testproto.TestAllTypes {
+	p := m.pb()
+	if withBallast {
+		p.DefaultNestedMessage = ballast()
+	}
+	return p
+}
+
 // fromPB converts; ok is false when the message carries anything outside the four model fields.
 func fromPB(p proto.Message) (m mm, ok bool) {
 	if p == nil {
@@ -52,7 +67,11 @@ func fromPB(p proto.Message) (m mm, ok bool) {
 		return mm{}, false
 	}
 	m = mm{V: t.DefaultInt32, N: t.DefaultInt64, S: t.DefaultString, B: t.DefaultBool}
-	return m, proto.Equal(m.pb(), t)
+	if t.DefaultNestedMessage == nil {
+		return m, proto.Equal(m.pb(), t)
+	}
+	// the ballast is either there in full or (projected away) not at all
+	return m, proto.Equal(m.pbWith(true), t)
 }
 
 func mustMM(p proto.Message) mm {
